@@ -157,17 +157,27 @@ def group_key(t):
     return ini, fin
 
 
+def outer_projections(g, ids) -> tuple:
+    """The outer spin projections a (permuted) graph really carries, per state id -- the index tuple of the amplitude it belongs to."""
+    return tuple(sp.Rational(g.states[i].spin_projection) for i in ids)
+
+
 def spec_model(builder, reaction, canonical, opaque, couplings):
-    """(amplitudes: {(topology, group key): Add}, chain terms, pools)."""
+    """(amplitudes: {(topology, outer projections per state id): Add}, chain terms, pools).
+    The statement: for every choice of outer projections, the COHERENT sum over all (symmetrised) chains with THOSE outer projections;
+    different outer projections are summed incoherently. The key is therefore the tuple of projections per final/initial-state ID of
+    the graph itself -- not the sorted multiset (name, projection) that `group_by_spin_projection` uses, which merges
+    (gamma_0: -1, gamma_2: +1) with (gamma_0: +1, gamma_2: -1) when two identical particles carry different projections."""
     amps: dict = {}
     chains = []
     pools: dict[int, set] = {}
+    ids = outer_ids(reaction.transitions[0])
     for t in reaction.transitions:
         for i in outer_ids(t):
             pools.setdefault(i, set()).add(sp.Rational(t.states[i].spin_projection))
         for g in identical_permutations(t):
             term = spec_chain(builder, g, canonical, opaque, couplings)
-            amps.setdefault((t.topology, group_key(t)), []).append(term)
+            amps.setdefault((t.topology, outer_projections(g, ids)), []).append(term)
             chains.append((g, term))
     return {k: sp.Add(*v) for k, v in amps.items()}, chains, pools
 
@@ -235,9 +245,8 @@ def check_model(chk: Check, name: str, formalism: str, couplings=False, opaque=F
         r, b, model = make()
         spec, chains, pools = spec_model(b, r, canonical, opaque, couplings)
         ids = outer_ids(r.transitions[0])
-        for (top, gk), want in spec.items():
-            t0 = next(t for t in r.transitions if t.topology == top and group_key(t) == gk)
-            sym = create_amplitude_base(top)[tuple(sp.Rational(t0.states[i].spin_projection) for i in ids)]
+        for (top, idx_), want in spec.items():
+            sym = create_amplitude_base(top)[idx_]
             got = model.amplitudes.get(sym)
             if got is None:
                 return {"reproduced": True, "input": tag, "observed": f"amplitude {sym} not defined", "expected": str(want)[:300]}
@@ -280,9 +289,10 @@ def check_model(chk: Check, name: str, formalism: str, couplings=False, opaque=F
     # (2) amplitude definitions
     used = set()
     n_smt = 0
-    for (top, gk), want in spec.items():
-        group = [t for t in r.transitions if t.topology == top and group_key(t) == gk]
-        sym = create_amplitude_base(top)[tuple(sp.Rational(group[0].states[i].spin_projection) for i in ids)]
+    for (top, idx_), want in spec.items():
+        sym = create_amplitude_base(top)[idx_]
+        # the transitions of this topology that carry exactly these outer projections (possibly none: only symmetrised graphs do)
+        group = [t for t in r.transitions if t.topology == top and outer_projections(t, ids) == idx_]
         used.add(sym)
         got = model.amplitudes.get(sym)
         key = f"{sym}".replace(",", ";")
@@ -295,9 +305,12 @@ def check_model(chk: Check, name: str, formalism: str, couplings=False, opaque=F
             n_smt += 1
             smt_identity(chk, f"amplitude==spec[{tag}]:{key}", got, want, replay)
         # every transition of the coherent group carries the same index tuple as the registered symbol
-        same_idx = all(tuple(sp.Rational(t.states[i].spin_projection) for i in ids) == sym.indices for t in group)
+        # ... are registered by ampform under the very symbol the spec uses (its own naming function applied to the transition)
+        from ampform.helicity.naming import create_amplitude_symbol
+
+        same_idx = all(create_amplitude_symbol(t) == sym for t in group)
         chk.struct(f"amplitude.group_has_one_index_tuple[{tag}]:{key}", same_idx, F, bounded=True, replay=replay,
-                   witness="identical particles with different projections are grouped together but indexed separately")
+                   witness="a transition with these outer projections is named by another amplitude symbol")
     extra = {a: v for a, v in model.amplitudes.items() if a not in used}
     chk.struct(f"amplitude.without_transition_is_zero[{tag}]", all(v == 0 for v in extra.values()), F, witness={str(a): str(v)[:80] for a, v in extra.items() if v != 0},
                bounded=True, replay=replay)
@@ -337,10 +350,13 @@ def check_model(chk: Check, name: str, formalism: str, couplings=False, opaque=F
 
     badI = []
     groups: dict = {}
-    for (top, gk), want in spec.items():
-        groups.setdefault(gk, []).append(want)
-    for gk, parts in groups.items():
-        t0 = next(t for t in r.transitions if group_key(t) == gk)
+    for (top, idx_), want in spec.items():
+        groups.setdefault(idx_, []).append(want)
+    for idx_, parts in groups.items():
+        t0 = next((t for t in r.transitions if outer_projections(t, ids) == idx_), None)
+        if t0 is None:
+            badI.append(f"no transition (hence no component) carries the outer projections {idx_} although symmetrised chains do")
+            continue
         cname = f"I_{{{generate_transition_label(t0)}}}"
         got = model.components.get(cname)
         want = sp.Abs(sp.Add(*parts)) ** 2
@@ -389,6 +405,7 @@ def build(chk: Check) -> None:
     chk.assume("symbol names come from ampform's naming functions; their meaning is C07's, coefficient sharing / parity sign C03's")
     chk.trust("z3 5.1.0 / cvc5 unsat answers; SymPy Rotation.d(...).doit() (its orthogonality is checked in C05)")
     names = ["jpsi_gamma_pi0_pi0", "jpsi_pi0_pip_pim", "d1_k_k_k0", "jpsi_sigmabar_sigma", "etac_lambda_lambdabar", "jpsi_p_pbar", "jpsi_k0_sigma_pbar_N", "lambdac_p_k_pi", "jpsi_kk_pipi", "d0_k_3pi_cascade", "jpsi_gamma_pi0_pi0_f2", "d0_k_pi_pi0",
+             "chic0_omega_omega",  # the same resonance twice with the same daughters (two symmetrised gamma pi0 pairs, both nodes parity-flippable)
              "jpsi_gamma_pi0_pi0_twin"]  # resonances with an equal-but-renamed twin: transitions that compare equal and must still get their own names/coefficients
     if chk.tier == "quick":
         plan = [(n, f, c) for n in names for f in ("helicity", "canonical-helicity") for c in (CONFIGS_QUICK if n in names[:4] else CONFIGS_QUICK[:3])]
